@@ -115,6 +115,8 @@ class Run:
         self.name = name or entry
         self.reduce = reduce
         self.t0 = time.time()
+        if time_budget_s:
+            self.m.deadline = self.t0 + time_budget_s
         self.foot = []        # per step: {tid: set(objs)} for the partial-order constraint
 
     # ------------------------------------------------------------------ setup
